@@ -313,7 +313,7 @@ def judgeE2E (id : String) (ins outs0 : List String) : String :=
           let specDefect (nowNs : Int) : Option PostPolicy.Defect :=
             if isPost && backend then
               match SigV4Spec.fieldVals form SigV4Spec.fPolicy with
-              | [pol] => PostPolicy.formDefect (nowNs / 1000000000) pol form bucket fileLen
+              | [pol] => PostPolicy.formDefectWith PostPolicy.parseInstantAnyZone (nowNs / 1000000000) pol form bucket fileLen
               | _ => none
             else none
           let d1 := specDefect n1
